@@ -219,7 +219,7 @@ class Executor(StmtMixin, ExprMixin, CallMixin, LibMixin):
             if kind == RET:
                 n_ret += 1
                 for exc, cond in sorted(c.must_raise.items()):
-                    pre = Ctx(self, p.with_heap(p.entry_heap), args)
+                    pre = Ctx(self, p, args).old
                     self.oblige(p, f"must-raise:{exc}", sv.Not(cond(pre)), fi.node, assume=False)
                 if c.ensures is not None:
                     post = c.ensures(ctx, val)
@@ -294,7 +294,7 @@ class Executor(StmtMixin, ExprMixin, CallMixin, LibMixin):
 
     def frame_unchanged(self, p, c, node):
         """on this exit no field in the modifies clause was changed"""
-        ctx0 = Ctx(self, p.with_heap(p.entry_heap), self.cur_args)
+        ctx0 = Ctx(self, p, self.cur_args).old
         mods = c.modifies(ctx0) if c.modifies else []
         for f, fm in p.heap.items():
             old = p.entry_heap.get(f)
